@@ -273,6 +273,8 @@ impl AbstractTree for BlobTree {
         let config = self.tree_config();
         let mut versions = self.get_version_history_lock();
 
+        let old_version = versions.latest_version().version;
+
         versions.upgrade_version(
             &config.path,
             |v| {
@@ -285,7 +287,21 @@ impl AbstractTree for BlobTree {
             },
             &config.seqno,
             &config.visible_seqno,
-        )
+        )?;
+
+        drop(versions);
+
+        // NOTE: The old version stays in the version history for as long as a snapshot may still
+        // read it; its files are deleted once it is released, like after a compaction or drop
+        for table in old_version.iter_tables() {
+            table.mark_as_deleted();
+        }
+
+        for blob_file in old_version.blob_files.iter() {
+            blob_file.mark_as_deleted();
+        }
+
+        Ok(())
     }
 
     fn major_compact(&self, target_size: u64, seqno_threshold: SeqNo) -> crate::Result<()> {
